@@ -9,7 +9,10 @@
  * descriptors take precedence and leave signals pending; revents is written for every
  * slot on every call).
  *
- * Case line:   cb0=<act>,<act>,.. cb1=.. <op> <op> ...
+ * Case line:   cb0=<act>,<act>,.. cb1=.. ub0=<act>,.. <op> <op> ...
+ *   cb<k> = what callback k does when invoked with TICKIT_EV_FIRE; ub<k> = what it does when it
+ *   is invoked with the bare TICKIT_EV_UNBIND of tickit_watch_cancel (registrations only: a
+ *   c<id> there is ignored)
  *   actions / ops:
  *     t<delta>:<fl>:<cb>       tickit_watch_timer_at_tv(now+delta usec)
  *     l<fl>:<cb>               tickit_watch_later
@@ -25,6 +28,10 @@
  *     o                        tickit_tick(NOSETUP): ppoll sleeps for the time-out asked
  *     R<fdi>:<revents>         descriptor fdi is ready with revents at the next ppoll
  *     K<sig>                   sig arrives while the next ppoll is waiting
+ *     B<sig>                   (F cases) sig arrives right after the next read of the self-pipe's wakeup byte
+ *   a case that starts with the token F uses a minimal custom event loop that has no ->signal
+ *   hook, so that the library's self-pipe fallback handles signals (unblocked: the handler runs
+ *   at once); poll() is then the real one
  *   the instance is destroyed at the end of every case.
  * Watches are numbered 0,1,2.. in order of registration (all kinds share the counter).
  * <fl> are TICKIT_BIND_* bits, <cb> indexes the cb table: what the callback does when it is
@@ -58,7 +65,7 @@ struct W { int id, kind, cb, live; long long x; void *watch; };
 static Tickit *T;
 static struct W ws[MAXW];
 static int nws;
-static char *cbs[MAXCB];
+static char *cbs[MAXCB], *ubs[MAXCB];
 static long long vclock;
 static int iter;
 static int fds[NFD];            /* read ends of pipes */
@@ -126,6 +133,8 @@ static int on_ev(Tickit *t, TickitEventFlags flags, void *info, void *user)
   if(flags & (TICKIT_EV_UNBIND | TICKIT_EV_DESTROY)) w->live = 0;
   if((flags & TICKIT_EV_FIRE) && w->cb >= 0 && w->cb < MAXCB && cbs[w->cb])
     run_acts(cbs[w->cb], 0);
+  if(flags == TICKIT_EV_UNBIND && w->cb >= 0 && w->cb < MAXCB && ubs[w->cb])
+    run_acts(ubs[w->cb], 2);
   return 0;
 }
 
@@ -210,8 +219,76 @@ static void run_acts(const char *acts, int toplevel)
   char buf[512];
   strncpy(buf, acts, sizeof buf - 1); buf[sizeof buf - 1] = 0;
   char *save = NULL;
-  for(char *a = strtok_r(buf, ",", &save); a; a = strtok_r(NULL, ",", &save))
+  for(char *a = strtok_r(buf, ",", &save); a; a = strtok_r(NULL, ",", &save)) {
+    if(toplevel == 2 && a[0] == 'c') continue;   /* no cancel from inside an unbind notification */
     do_act(a);
+  }
+}
+
+/* ---- a minimal event loop WITHOUT a ->signal hook (cases that start with the token F): the
+ * library then uses its self-pipe fallback (tickit.c sighandler / on_sigpipe_readable); signals
+ * are not blocked, the handler runs at once.  poll() is the real one, with a zero time-out. */
+#include "tickit-evloop.h"
+#define FMAXFD 32
+typedef struct { Tickit *t; int running, n; int used[FMAXFD]; struct pollfd pfd[FMAXFD]; TickitWatch *w[FMAXFD]; } FLoop;
+static int sigpipe_rd = -1;        /* read end of the library's self-pipe: the first fd it watches */
+static int between[8], nbetween;   /* signals that arrive right after the wakeup byte has been read */
+
+static void *f_init(Tickit *t, void *initdata) { FLoop *l = calloc(1, sizeof *l); l->t = t; return l; }
+static void f_destroy(void *data) { free(data); }
+static void f_stop(void *data) { ((FLoop *)data)->running = 0; }
+static void f_run(void *data, TickitRunFlags flags)
+{
+  FLoop *l = data;
+  l->running = 1;
+  while(l->running) {
+    struct pollfd snap[FMAXFD];
+    int n = l->n;
+    for(int i = 0; i < n; i++) { snap[i] = l->pfd[i]; snap[i].revents = 0; if(!l->used[i]) snap[i].fd = -1; }
+    OUT("p0 ");
+    int ret = poll(snap, n, 0);
+    tickit_evloop_invoke_timers(l->t);
+    if(ret > 0)
+      for(int i = 0; i < n; i++) {
+        if(!l->used[i] || l->pfd[i].fd != snap[i].fd || !snap[i].revents) continue;
+        TickitIOCondition cond = 0;
+        if(snap[i].revents & POLLIN)  cond |= TICKIT_IO_IN;
+        if(snap[i].revents & POLLHUP) cond |= TICKIT_IO_HUP;
+        if(snap[i].revents & POLLERR) cond |= TICKIT_IO_ERR;
+        tickit_evloop_invoke_iowatch(l->w[i], TICKIT_EV_FIRE, cond);
+      }
+    if(flags & (TICKIT_RUN_ONCE|TICKIT_RUN_NOHANG)) return;
+  }
+}
+static bool f_io(void *data, int fd, TickitIOCondition cond, TickitBindFlags flags, TickitWatch *watch)
+{
+  FLoop *l = data; int i;
+  for(i = 0; i < l->n; i++) if(!l->used[i]) break;
+  if(i == FMAXFD) return false;
+  if(i == l->n) l->n++;
+  l->used[i] = 1; l->pfd[i].fd = fd; l->pfd[i].events = (cond & TICKIT_IO_IN) ? POLLIN : 0; l->pfd[i].revents = 0; l->w[i] = watch;
+  tickit_evloop_set_watch_data_int(watch, i);
+  if(sigpipe_rd == -2 && fd >= 0) sigpipe_rd = fd;   /* -2: waiting for the library's first real descriptor */
+  return true;
+}
+static void f_cancel_io(void *data, TickitWatch *watch)
+{
+  FLoop *l = data; int i = tickit_evloop_get_watch_data_int(watch);
+  l->used[i] = 0; l->pfd[i].fd = -1; l->w[i] = NULL;
+}
+static TickitEventHooks f_hooks = { .init = f_init, .destroy = f_destroy, .run = f_run, .stop = f_stop, .io = f_io, .cancel_io = f_cancel_io };
+
+/* link-time replacement of read(): after the library has read from its self-pipe, the signals
+ * scripted with B<sig> arrive (between the wakeup read and the snapshot of the pending set) */
+ssize_t __real_read(int fd, void *buf, size_t n);
+ssize_t __wrap_read(int fd, void *buf, size_t n)
+{
+  ssize_t r = __real_read(fd, buf, n);
+  if(fd == sigpipe_rd && sigpipe_rd >= 0 && nbetween) {
+    int k = nbetween; nbetween = 0;
+    for(int i = 0; i < k; i++) if(is_watched(between[i])) raise(between[i]);
+  }
+  return r;
 }
 
 static void loop_case(void)
@@ -219,15 +296,17 @@ static void loop_case(void)
   size_t heap_before = __sanitizer_get_current_allocated_bytes();
   outn = 0; out[0] = 0;
   nws = 0; vclock = 0; iter = 0; ninwait = 0; sleep_mode = 0;
-  for(int i = 0; i < MAXCB; i++) cbs[i] = NULL;
+  for(int i = 0; i < MAXCB; i++) cbs[i] = ubs[i] = NULL;
   for(int j = 0; j < NFD; j++) ready[j] = 0;
-  T = tickit_build(&(struct TickitBuilder){ .tt = (TickitTerm *)tickit_mockterm_new(2, 2) });
-  for(int i = 0; i < vh_ntok; i++) {
+  int fallback = vh_ntok > 0 && strcmp(vh_tok[0], "F") == 0;
+  nbetween = 0; sigpipe_rd = fallback ? -2 : -1;
+  T = tickit_build(&(struct TickitBuilder){ .tt = (TickitTerm *)tickit_mockterm_new(2, 2), .evhooks = fallback ? &f_hooks : NULL });
+  for(int i = fallback; i < vh_ntok; i++) {
     char *a = vh_tok[i];
-    if(a[0] == 'c' && a[1] == 'b') {
+    if((a[0] == 'c' || a[0] == 'u') && a[1] == 'b') {
       char *eq = strchr(a, '=');
       int k = atoi(a + 2);
-      if(eq && k >= 0 && k < MAXCB) cbs[k] = eq + 1;
+      if(eq && k >= 0 && k < MAXCB) { if(a[0] == 'c') cbs[k] = eq + 1; else ubs[k] = eq + 1; }
       continue;
     }
     if(do_act(a)) continue;
@@ -245,6 +324,9 @@ static void loop_case(void)
     }
     else if(a[0] == 'K') {
       if(ninwait < 8) inwait[ninwait++] = atoi(a + 1);
+    }
+    else if(a[0] == 'B') {
+      if(nbetween < 8) between[nbetween++] = atoi(a + 1);
     }
   }
   iter = -1;
